@@ -13,4 +13,5 @@ INVARIANT C33_Located
 INVARIANT C33_Nchar
 INVARIANT C33_StopsAtFault
 INVARIANT C13_Order
+CONSTRAINT EmitInit
 CHECK_DEADLOCK FALSE
